@@ -229,7 +229,8 @@ PROPS = {
                       "tasks with equal labels, or a label equal to another task's name, have distinct checksum files, sumKey_inj: the file is a "
                       "function of the pair (task name, label) -, histories of any length made of "
                       "successful runs, runs failing in the command loop, runs cancelled at the prompt, runs cancelled by a failing sibling between the "
-                      "up-to-date check and the first command (Env.cancelled; C04_sibling_cancelled_no_entry), --dry, --status, --force, list/summary "
+                      "up-to-date check and the first command (Env.cancelled; C04_sibling_cancelled_no_entry), runs whose up-to-date check returns an error "
+                      "(an unexpandable generates entry: checkErr, C04_check_error_leaves_nothing, F8D), --dry, --status, --force, list/summary "
                       "queries and arbitrary file edits: skip implies goodRun), C04_partial_timestamp_general (the same histories for ANY "
                       "method-timestamp task, distinct task names, non-decreasing clock: skip implies goodRun or a generates file newer than the "
                       "marker vouched; C04_partial_timestamp: plain goodRun without positive generates pattern), C04_prompt_declined_no_entry / "
@@ -261,7 +262,9 @@ PROPS = {
                         "(since TS2 touches the marker only when the timestamp check itself asks for the run) 'the status commands did not fail "
                         "before that run'"],
         "level_text": "Theorems: C05_globs (for every pattern list and file set: p ∈ Globs ⇔ the last pattern matching p is positive; result strictly "
-                      "sorted), C05_idem (both methods), C05_force, C05_missing_generates (both methods since TS1), C05_status_fails, C05_detect_full_inj (FULL "
+                      "sorted), C05_idem (both methods; also for a run whose only failures were swallowed by ignore_error: C05_ignored_failure_ok, F8C), "
+                      "C05_match_independent (whether a path is a source does not depend on other files: a field of a pattern that cannot be stat'ed is "
+                      "skipped, F8E), C05_force, C05_missing_generates (both methods since TS1), C05_status_fails, C05_detect_full_inj (FULL "
                       "detection since fix F8B: the byte stream - names and contents back to back - together with the length table - the length of every "
                       "name and content, 8 bytes each, fed to a second hash - is an injective encoding of the list of (name, content), stream_lenTable_inj; "
                       "so for every project with injective names, i.e. every project since F8, different lists of (path, content) of the matched files give "
